@@ -23,8 +23,14 @@ func TestMain(m *testing.M) {
 
 var st = stats.New("delivery")
 
-func prop(t *rapid.T) {
-	sc := dagen.GenScenario(t, 2, dagen.Params{MinEvents: 30, MaxEvents: 130, Forks: dagen.MinorityFork, NonMaxFrames: true, LongEpochs: true})
+func prop(t *rapid.T) { propWith(t, "") }
+
+// propShapes: the same property on the rare large shapes (65-70 validators, one block confirming several hundred
+// events, 66-70 same-sequence events of one validator).
+func propShapes(t *rapid.T) { propWith(t, dagen.DrawShape(t, "late_quorum")) }
+
+func propWith(t *rapid.T, shape string) {
+	sc := dagen.GenScenario(t, 2, dagen.Params{MinEvents: 30, MaxEvents: 130, Forks: dagen.MinorityFork, NonMaxFrames: true, LongEpochs: true, Shape: shape})
 	cfgs := cons.Configs()
 	cfg := cfgs[rapid.IntRange(0, len(cfgs)-1).Draw(t, "cfg")]
 	in, err := cons.New(cons.NewEvents(), cfg, idx.Epoch(sc.FirstEpoch), sc.Epochs[0].Ref.Validators(), scen.SealFn(sc))
@@ -32,10 +38,25 @@ func prop(t *rapid.T) {
 		t.Fatalf("bootstrap: %v", err)
 	}
 	nontrivialBlocks, totalBlocks, forkPairs := 0, 0, 0
+	sameEpochResets := 0
 	for k, plan := range sc.Epochs {
 		ref := plan.Ref
 		forkPairs += plan.Info.ForkPairs
 		order := dagen.GenOrder(t, ref, fmt.Sprintf("ep%d", k))
+		if rapid.IntRange(0, 3).Draw(t, "restartSameEpoch") == 0 {
+			// the instance processes a part of the epoch, is Reset to the very same epoch and starts over with
+			// another order: deliveries of the abandoned attempt must not count for the new one
+			first := dagen.GenOrder(t, ref, fmt.Sprintf("ep%d.abandoned", k))
+			part := rapid.IntRange(1, len(first)).Draw(t, "abandonedPrefix")
+			if res := scen.FeedEpoch(in, ref, first[:part], nil); res.Err != nil || len(in.Crits) > 0 {
+				t.Fatalf("epoch %d (abandoned attempt): Process(e%d) = %v, crit %v\n%v", ref.Epoch, res.ErrAt, res.Err, in.Crits, scen.DescribeScenario(sc))
+			}
+			// (if the abandoned attempt already sealed the epoch, this goes back to it explicitly)
+			if err := in.L.Reset(idx.Epoch(ref.Epoch), ref.Validators()); err != nil {
+				t.Fatalf("Reset to epoch %d: %v", ref.Epoch, err)
+			}
+			sameEpochResets++
+		}
 		nb := len(in.Blocks)
 		res := scen.FeedEpoch(in, ref, order, nil)
 		if res.Err != nil || len(in.Crits) > 0 {
@@ -115,11 +136,17 @@ func prop(t *rapid.T) {
 	if totalBlocks == 0 {
 		classes = append(classes, "no_block")
 	}
+	if sameEpochResets > 0 {
+		classes = append(classes, "epoch_restarted_by_reset")
+	}
 	for _, b := range in.Blocks {
 		if b.Frame > 256 {
 			classes = append(classes, "epoch_with_more_than_256_blocks")
 			break
 		}
+	}
+	if sh := sc.Epochs[0].Info.Shape; sh != "" {
+		classes = append(classes, "shape_"+sh)
 	}
 	st.Case(stats.Hash(scen.DescribeScenario(sc)), nontrivialBlocks > 0, classes...)
 	st.Class("blocks", int64(totalBlocks))
@@ -134,3 +161,5 @@ func prop(t *rapid.T) {
 }
 
 func TestC02Delivery(t *testing.T) { rapid.Check(t, prop) }
+
+func TestC02Shapes(t *testing.T) { rapid.Check(t, propShapes) }
